@@ -30,7 +30,7 @@ def plan(tier):
             "min_nontrivial": 60,
             "min_counters": {"elements_compared": 500, "kind:lit": 300, "kind:match": 300, "kind:any": 200,
                              "kind:all": 200, "kind:anymatch": 100, "selects_checked": 50,
-                             "builtin_collection_constraints": 100, "patterns_over_a_tuple_field": 150}}
+                             "builtin_collection_constraints": 100, "patterns_over_a_tuple_field": 150, "patterns_built_from_reused_sub_patterns": 200}}
 
 
 def setup(ctx):
@@ -150,7 +150,7 @@ def gen(rng, tier, ctx):
     else:
         pat = gen_box_pattern(rng, world, 0, allow_select)
     return {"world": world, "pattern": pat, "root_selected": allow_select and rng.random() < 0.5,
-            "again": rng.randrange(1, 10 ** 6) if rng.random() < 0.3 else None}
+            "again": rng.randrange(1, 10 ** 6) if rng.random() < 0.3 else None, "reuse": rng.random() < 0.3}
 
 
 def witnesses():
@@ -167,6 +167,8 @@ def witnesses():
                                             "pattern": {"type": "Box", "attrs": {"lid": ["match", {"type": "BigPart", "attrs": {"grade": ["lit", 1]}}]}}, "root_selected": False},
         "nested-match-on-none-valued-optional": {"world": dict(world, boxes=[dict(world["boxes"][0], spare=0), dict(world["boxes"][1], spare=None)]),
                                                  "pattern": {"type": "Box", "attrs": {"spare": ["match", {"type": "Part", "attrs": {"name": ["lit", "a"]}}]}}, "root_selected": False},
+        "sub-pattern-object-used-in-a-second-pattern": {"world": world, "reuse": True, "root_selected": False,
+                                                        "pattern": {"type": "Box", "attrs": {"lid": ["match", {"type": "Part", "attrs": {"name": ["lit", "a"]}}]}}},
         "selected-part-of-another-element": {"world": world, "pattern": {"type": "Box", "attrs": {"lid": ["select", {"type": "Part", "attrs": {}}]}}, "root_selected": True},
     }
 
@@ -354,7 +356,8 @@ def run(spec, ctx):
     exp_ids = {id(o) for o in exp}
     selects = []
     try:
-        m = build_pattern(pat, mm, parts, M, domain=list(dom), root=True, root_selected=spec["root_selected"], selects=selects)
+        kw = build_kwargs(pat, mm, parts, M, selects, ())
+        m = (M.entity_selection if spec["root_selected"] else M.entity_matching)(root_T, list(dom))(**kw)
         q = an(m)
         rows = list(q.evaluate())
     except Exception as e:
@@ -442,6 +445,25 @@ def run(spec, ctx):
         C["fail:" + (key or "UNEXPLAINED")] += 1
         detail = extra_problems[:2] + [f"missing elements {[idn.get(id(o), '?') for o in missing_problems][:4]}"] * bool(missing_problems) + lost_parts[:2]
         return {"status": "fail", "kind": "pattern-mismatch", "key": key, "detail": "; ".join(detail) + " | " + skeleton(pat)}
+    if spec.get("reuse") and not selects:
+        # the pattern objects written for the attributes are used in a second pattern
+        try:
+            got2 = {id(r) for r in an(M.entity_matching(root_T, list(dom))(**kw)).evaluate()}
+        except Exception as e:
+            from krrood.entity_query_language import symbolic as S
+            S.SymbolicExpression._symbolic_expression_stack_.clear()
+            return {"status": "fail", "kind": "reuse:exception:" + type(e).__name__, "key": None,
+                    "detail": f"second pattern built from the same sub-pattern objects: {type(e).__name__}: {e}"[:300] + " | " + skeleton(pat)}
+        C["patterns_built_from_reused_sub_patterns"] += 1
+        if got2 != exp_ids:
+            entries = [e for o in dom if isinstance(o, root_T) for e in any_entries(o, pat)]
+            key = None
+            if not (got2 - exp_ids) and all(has_twin(i, entries) for i in exp_ids - got2):
+                key = "match-any-collapses-equal-collections"
+            C["fail:" + (key or "UNEXPLAINED")] += 1
+            return {"status": "fail", "kind": "reuse:pattern-mismatch", "key": key,
+                    "detail": f"a second pattern built from the same sub-pattern objects: extra {[idn.get(i, '?') for i in got2 - exp_ids][:3]} "
+                              f"missing {[idn.get(i, '?') for i in exp_ids - got2][:3]} | " + skeleton(pat)}
     if spec.get("again") and not selects:
         # the same query object once more after collections it looks at were changed IN PLACE
         import random
